@@ -42,7 +42,8 @@ Definition fama_go (here : path)
           let child_tag := if is_bin then "solitaryfeature" else "groupedfeature" in
           match fama_gor child_tag here k 0%nat (x_children rel) 0%Z 0%Z seen with
           | Err e => Err e
-          | Ok (cs, a, b, seen') =>
+          | Ok ([], _, _, _) => Err FlamaException
+          | Ok ((_ :: _) as cs, a, b, seen') =>
               match go (S k) rest seen' with
               | Err e => Err e
               | Ok (prs, s3) => Ok (PRelation (PPath here) a b cs :: prs, s3)
@@ -121,7 +122,8 @@ Proof.
   - cbn [fama_go] in H. cbv zeta in H.
     destruct (tag_is "binaryrelation" rel || tag_is "setrelation" rel); [|eauto].
     match type of H with
-    | match ?g with _ => _ end = _ => destruct g as [[[[cs a] b] seen1]|e] eqn:Hg; [|discriminate]
+    | match ?g with _ => _ end = _ =>
+        destruct g as [[[[[|c0 cs0] a] b] seen1]|e] eqn:Hg; [discriminate| |discriminate]
     end.
     destruct (fama_go here (S k) rest seen1) as [[prs' s3]|e] eqn:Hgo; [|discriminate].
     injection H as <- _. cbn [wf_go ptr_eqb]. rewrite path_eqb_refl.
@@ -202,5 +204,112 @@ Proof.
   intros r cs Heq. discriminate.
 Qed.
 
+(* ------------------------------------------------------------------ no relation of an accepted document is empty *)
+Definition fama_ne_stmt (x : xml) : Prop :=
+  forall here parent seen pf seen',
+    fama_parse_feature x here parent seen = Ok (pf, seen') -> rels_nonempty_p pf = true.
+
+Lemma fama_gor_ne : forall ct here k items,
+  Forall fama_ne_stmt items ->
+  forall j mn mx seen pcs a b s,
+    fama_gor ct here k j items mn mx seen = Ok (pcs, a, b, s) -> forallb rels_nonempty_p pcs = true.
+Proof.
+  intros ct here k items HF. induction HF as [|it its Hit _ IH]; intros j mn mx seen pcs a b s H.
+  - cbn in H. injection H as <- _ _ _. reflexivity.
+  - cbn [fama_gor] in H. destruct (tag_is ct it).
+    + destruct (fama_parse_feature it (here ++ [(k, j)]) (PPath here) seen) as [[pc seen1]|e] eqn:Hp;
+        [|discriminate].
+      destruct (fama_gor ct here k (S j) its mn mx seen1) as [[[[pcs' a'] b'] s2]|e] eqn:Hg;
+        [|discriminate].
+      injection H as <- _ _ _. cbn [forallb]. rewrite (Hit _ _ _ _ _ Hp). cbn [andb]. eauto.
+    + destruct (tag_is "cardinality" it).
+      * destruct (xint "min" it) as [a0|e]; [|discriminate].
+        destruct (xint "max" it) as [b0|e]; [|discriminate]. eauto.
+      * eauto.
+Qed.
+
+Lemma fama_go_ne : forall here kids,
+  Forall (fun rel => Forall fama_ne_stmt (x_children rel)) kids ->
+  forall k seen prs s, fama_go here k kids seen = Ok (prs, s) ->
+    forallb (fun r => negb (Nat.eqb (List.length (pr_children r)) 0)
+                      && forallb rels_nonempty_p (pr_children r)) prs = true.
+Proof.
+  intros here kids HF. induction HF as [|rel rest Hrel _ IH]; intros k seen prs s H.
+  - cbn in H. injection H as <- _. reflexivity.
+  - cbn [fama_go] in H. cbv zeta in H.
+    destruct (tag_is "binaryrelation" rel || tag_is "setrelation" rel); [|eauto].
+    match type of H with
+    | match ?g with _ => _ end = _ =>
+        destruct g as [[[[[|c0 cs0] a] b] seen1]|e] eqn:Hg; [discriminate| |discriminate]
+    end.
+    destruct (fama_go here (S k) rest seen1) as [[prs' s3]|e] eqn:Hgo; [|discriminate].
+    injection H as <- _.
+    pose proof (fama_gor_ne _ _ _ _ Hrel _ _ _ _ _ _ _ _ Hg) as Hcs. cbn [forallb] in Hcs.
+    cbn [forallb pr_children List.length Nat.eqb negb]. rewrite Hcs. cbn [andb]. eauto.
+Qed.
+
+Lemma fama_parse_feature_ne : forall x, fama_ne_stmt x /\ Forall fama_ne_stmt (x_children x).
+Proof.
+  induction x as [t attrs tx kids IH] using xml_ind2. cbn [x_children].
+  assert (Hk : Forall fama_ne_stmt kids).
+  { rewrite Forall_forall in *. intros k Hin. exact (proj1 (IH k Hin)). }
+  split; [|exact Hk].
+  intros here parent seen pf seen' H. rewrite fama_parse_feature_eq in H. cbv zeta in H.
+  destruct (list_existsb_eq _ seen); [discriminate|].
+  match type of H with
+  | match ?g with _ => _ end = _ => destruct g as [[prs s1]|e] eqn:Hg; [|discriminate]
+  end.
+  injection H as <- _. rewrite rels_nonempty_p_eq.
+  eapply fama_go_ne; [|exact Hg].
+  rewrite Forall_forall in *. intros k Hin. exact (proj2 (IH k Hin)).
+Qed.
+
+Lemma fama_doc_ne : forall kids cur seen pm,
+  (forall r cs, cur = Some (r, cs) -> rels_nonempty_p r = true) ->
+  fama_doc kids cur seen = Ok pm -> rels_nonempty_p (proot pm) = true.
+Proof.
+  induction kids as [|k rest IH]; intros cur seen pm Hinv H.
+  - cbn in H. destruct cur as [[r cs]|]; [|discriminate]. injection H as <-.
+    exact (Hinv r cs eq_refl).
+  - cbn [fama_doc] in H. destruct (tag_is "feature" k).
+    + destruct (fama_parse_feature k [] PNone seen) as [[r seen1]|e] eqn:Hp; [|discriminate].
+      apply IH in H; [exact H|]. intros r0 cs0 Heq. injection Heq as <- <-.
+      exact (proj1 (fama_parse_feature_ne k) _ _ _ _ _ Hp).
+    + destruct (tag_is "excludes" k || tag_is "requires" k).
+      * destruct (fama_parse_ctc k seen) as [c|e] eqn:Hc; [|discriminate].
+        destruct cur as [[r cs]|]; [|discriminate].
+        apply IH in H; [exact H|]. intros r0 cs0 Heq. injection Heq as <- <-.
+        exact (Hinv r cs eq_refl).
+      * eauto.
+Qed.
+
+Theorem fama_read_nonempty : forall x pm, fama_read x = Ok pm -> rels_nonempty_p (proot pm) = true.
+Proof.
+  intros x pm H. rewrite fama_read_eq in H. eapply fama_doc_ne in H; [exact H|].
+  intros r cs Heq. discriminate.
+Qed.
+
+(* a document whose root feature has a setRelation with only a cardinality element is rejected *)
+Example fama_read_empty_relation :
+  fama_read (Elem "feature-model" [] None
+               [Elem "feature" [("name", "R")] None
+                  [Elem "setRelation" [("name", "G")] None
+                     [Elem "cardinality" [("min", "1"); ("max", "1")] None []]]])%string
+  = Err FlamaException.
+Proof. vm_compute; reflexivity. Qed.
+
+(* the same relation with one grouped feature is accepted (so it is the missing feature that is rejected) *)
+Example fama_read_one_feature :
+  exists pm,
+  fama_read (Elem "feature-model" [] None
+               [Elem "feature" [("name", "R")] None
+                  [Elem "setRelation" [("name", "G")] None
+                     [Elem "cardinality" [("min", "1"); ("max", "1")] None [];
+                      Elem "groupedFeature" [("name", "A")] None []]]])%string
+  = Ok pm.
+Proof. vm_compute; eexists; reflexivity. Qed.
+
 Print Assumptions fama_read_ptr_wf.
 Print Assumptions fama_read_ctc_shape.
+Print Assumptions fama_read_nonempty.
+Print Assumptions fama_read_empty_relation.
